@@ -376,7 +376,7 @@ func TestD14_ExactInputLosesToSameNameChain(t *testing.T) {
 	for i := 0; i < 200; i++ {
 		convRan, got = 0, 0
 		res, p := call(target,
-			argmapper.Named("a", T4{K: 7}),            // exactly what the target asks for
+			argmapper.Named("a", T4{K: 7}),             // exactly what the target asks for
 			argmapper.NamedSubtype("a", T0{K: 1}, "t"), // a same-named value of another type
 			argmapper.Converter(conv))
 		if p != nil {
@@ -463,5 +463,46 @@ func TestD16_RedefineNonIdentifierName(t *testing.T) {
 	}
 	if res.Out(0).(string) != "v 9" && res.Out(0).(string) != "v9" {
 		t.Fatalf("got %q", res.Out(0))
+	}
+}
+
+// D17 (C05): on a single-input converter set with a cycle through same-named
+// values, a derivable call failed with an unsatisfied-argument error in a few
+// percent of runs: the same-name discount makes cycles free, so a path through
+// the very function being satisfied (or one waiting further up the stack) ties
+// with the direct path and map order picks between them.
+func TestD17_TieThroughFunctionInProgress(t *testing.T) {
+	type sB1 struct {
+		argmapper.Struct
+		B T1
+	}
+	type sB2 struct {
+		argmapper.Struct
+		B T2
+	}
+	f1 := func(x T1) sB1 { return sB1{B: x} }                // T1 -> b:T1
+	f2 := func(in *sB2) sB1 { return sB1{B: T1{K: in.B.K}} } // b:T2 -> b:T1
+	f3 := func(in sB1) (T1, error) { return in.B, nil }      // b:T1 -> T1
+	f4 := func(in sB1) sB2 { return sB2{B: T2{K: in.B.K}} }  // b:T1 -> b:T2
+	target := argmapper.MustFunc(argmapper.NewFunc(func(in struct {
+		argmapper.Struct
+		X T2 `argmapper:",typeOnly"`
+		B T1
+		Y T1 `argmapper:",typeOnly"`
+	}) int {
+		return in.X.K + in.B.K + in.Y.K
+	}))
+	for i := 0; i < 3000; i++ {
+		res, p := call(target,
+			argmapper.Typed(T2{K: 1}),
+			argmapper.NamedSubtype("b", T1{K: 2}, "t"),
+			argmapper.NamedSubtype("b", T2{K: 3}, "s"),
+			argmapper.Converter(f1, f2, f3, f4))
+		if p != nil {
+			t.Fatalf("iteration %d: panic: %v", i, p)
+		}
+		if res.Err() != nil {
+			t.Fatalf("iteration %d: every parameter is derivable (b:T1 from b:T1/t, T1 through f3) but Call failed: %.300s", i, res.Err())
+		}
 	}
 }
